@@ -1,5 +1,5 @@
 (* ChronoRefute.v — kernel-evaluated witnesses: the input classes on which the faithful model still
-   violates the full-strength statements of C14 / C15 (K35, K41, K42, K45, K48), and regression
+   violates the full-strength statements of C14 / C15 (K41, K42, K48), and regression
    examples of the defects repaired in /repo (60cbc0d 30f5d3e 302fac1 5f3f75a d4af9ec beee810 0e78f9f). *)
 From BS Require Import Base ChronoSpec ChronoModel ChronoArith ChronoDecimal ChronoSafe ChronoSafeAdd ChronoText ChronoTp.
 Local Open Scope Z_scope.
@@ -25,9 +25,13 @@ Definition text_K42 : list N := (* "PT1S1H junk" *) [80;84;49;83;49;72;32;106;11
 Lemma w_K42 : dur_parse Ps I64 text_K42 = Ok 3601.
 Proof. vm_compute. reflexivity. Qed.
 
-(* K45: the general-ratio branch of SafeDurationCast returns 0 for a count that is not representable *)
-Lemma w_K45 : safe_cast (mkD I64 2 3) (mkD I64 1 1) 1 = Ok 0.
-Proof. vm_compute. reflexivity. Qed.
+(* K45 (repaired in /repo): the general-ratio branch of SafeDurationCast (reduced ratio with num >= 2 and den >= 2) is
+   exact or out_of_range: 1 tick of 2/3 s is no whole second, 3 ticks are 2 s; a large uint64 count no longer overflows
+   the check; a negative count into an unsigned target is refused *)
+Lemma r_K45 : safe_cast (mkD I64 2 3) (mkD I64 1 1) 1 = Err OutOfRange /\ safe_cast (mkD I64 2 3) (mkD I64 1 1) 3 = Ok 2 /\
+  safe_cast (mkD U64 1 1) (mkD I64 2 3) 6148914691236517202 = Ok 9223372036854775803 /\
+  safe_cast (mkD I64 2 3) (mkD U64 1 1) (-3) = Err OutOfRange.
+Proof. repeat split; vm_compute; reflexivity. Qed.
 
 (* K48: 8-bit representations wrap inside std::chrono::round / floor *)
 Definition text_K48 : list N := (* "PT0.2S" *) [80;84;48;46;50;83]%N.
